@@ -32,6 +32,17 @@ CHECKS = {
     ),
 }
 
+CHECKS["C07"] = dict(
+    text="filterArgs_eq_bind: for every well-formed signature of any length and every call Python accepts, the Lean model of "
+    "filter_args equals CPython's binding (also for bound methods), ignore_removes_exactly, wrapper_accepts, "
+    "error_implies_python_rejects; the model is compared exhaustively (all signatures with <= 4 parameters, every call shape) with "
+    "the real filter_args and with the real call semantics every run. Counterexample theorems about the pre-fix function are kept.",
+    note="modelled not verified: inspect.signature, exec-generated test functions; non-function callables (partials, builtins) take "
+    "filter_args' fallback branch, covered by correspondence only.",
+    technique="Lean 4 proof (induction over the parameter list) + exhaustive small-scope differential correspondence",
+    ref="6/C07",
+)
+
 NOT_BUILT = "check not built yet in this round (planned: see DESIGN.md section 6); not claimed"
 NOT_APPLICABLE = {}
 
@@ -60,7 +71,7 @@ def main():
         )
     m = dict(
         version=1,
-        setup_cmd="cd lean && lake build",
+        setup_cmd="cd lean && lake build " + " ".join(f"JoblibProofs.{c['property_id']} drv_{c['property_id'].lower()}" for c in checks),
         hooks=dict(
             guard="JOBLIB_VERIF",
             enable="no source hooks: checks import joblib from /repo's working tree (VERIF_REPO overrides the path) and "
@@ -91,7 +102,9 @@ def main():
     ev = (
         "import json,jsonschema,sys,glob\n"
         "s=json.load(open('/root/.vp/EVIDENCE.schema.json'))\n"
+        "claimed=set(c['property_id'] for c in json.load(open(sys.argv[1]+'/MANIFEST.json'))['checks'])\n"
         "for f in sorted(glob.glob(sys.argv[1]+'/evidence/*.json')):\n"
+        "    if f.split('/')[-1][:-5] not in claimed: continue\n"
         "    jsonschema.validate(json.load(open(f)), s); print('evidence ok', f)\n"
     )
     subprocess.run(["python3-vt", "-c", ev, str(HERE)], check=True)
